@@ -464,6 +464,7 @@ class Nfa2Dfa:
 
 class Dfa2Regexp:
     name = 'dfa2regexp'
+    regexp_answer = True      # the generated (ANTLR) parser recovers from syntax errors; the Lean parser is strict
 
     def instance(self, rng):
         return {'D': gen.random_dfa(rng, 3, rng.choice([['a', 'b'], ['a'], ['a', 'b', 'c'], ['a', 'b'], ['0', '1']]),
@@ -1103,3 +1104,350 @@ class LanguageFile(LanguageWords):
 ALL = [Product('union'), Product('intersection'), Product('symmetric_difference'), Complement(), Reverse(),
        Minimal('dfa_minimize'), Minimal('dfa_hopfcroft'), Nfa2Dfa(), Dfa2Regexp(), Cyk(), Derivation('leftmost'),
        Derivation('rightmost'), Chomsky(1), Chomsky(2), Chomsky(3), Chomsky(4), Chomsky(5), LanguageWords('dfa'), LanguageWords('nfa'), LanguageFile('dfa'), LanguageFile('nfa'), CfgLanguageWords(), AcceptsRejects('dfa'), AcceptsRejects('cfg')]
+
+
+# ---------------------------------------------------------------------------------------------- every formalism (CheckAll)
+from gambatools import pda_algorithms as PA, tm_algorithms as TA
+
+
+def finite_closure_pda(rng):
+    """a random PDA none of whose epsilon-input moves pushes: every epsilon closure is finite and small, so the enumeration is exact
+    under the default iteration limit (C09 / C02) and independent of the pop order"""
+    for _ in range(50):
+        P = gen.random_pda(rng)
+        e = P['eps']
+        if e == '' or '∅' in P['Gamma']:
+            continue
+        delta = []
+        for p, a, u, T in P['delta']:
+            T2 = [[q, v] for q, v in T if not (a == e and v != e)]
+            if T2:
+                delta.append([p, a, u, T2])
+        P = dict(P, delta=delta, dd=True)
+        if P['Sigma']:
+            return P
+    return None
+
+
+KIND_TEXT = {
+    'dfa': lambda X: dfa_text(X),
+    'nfa': lambda X: nfa_text(X),
+    'pda': lambda X: PA.print_pda(enc.build_pda(X)),
+    'tm': lambda X: TA.print_tm(enc.build_tm(X)),
+    'cfg': lambda X: simple_cfg_text(X),
+    'regexp': lambda X: print_regexp_simple(enc.build_regexp(X)),
+}
+KIND_PARSE = {'dfa': DA.parse_dfa, 'nfa': NA.parse_nfa, 'pda': PA.parse_pda, 'tm': TA.parse_tm, 'cfg': CA.parse_simple_cfg,
+              'regexp': parse_simple_regexp}
+
+
+def kind_instance(kind, rng):
+    if kind == 'dfa':
+        return gen.random_dfa(rng, 4, rng.choice([['a', 'b'], ['a']]))
+    if kind == 'nfa':
+        X = gen.random_nfa(rng, 4, rng.choice([['a', 'b'], ['a']]), rng.choice(['_', 'ε']))
+        X['dd'] = True
+        return X
+    if kind == 'pda':
+        return finite_closure_pda(rng)
+    if kind == 'tm':
+        for _ in range(30):
+            T = gen.tm_zoo(rng)[0] if rng.random() < 0.3 else gen.random_tm(rng)
+            if T['Sigma'] and all(len(x) == 1 for x in T['Gamma']) and T['q0'] not in (T['qa'], T['qr']):
+                return T
+        return None
+    if kind == 'cfg':
+        c = CfgLanguageWords().instance(rng)
+        return None if c is None else c['G']
+    return gen.random_regexp(rng, rng.randint(1, 6), rng.choice([['a', 'b'], ['a']]))
+
+
+def kind_lang(kind, text, n):
+    """independent bounded language of a text of the given kind (parsed by the library parser, judged by the oracles); None = unreadable"""
+    A = try_parse(KIND_PARSE[kind], text)
+    if A is None:
+        return None
+    if kind in ('dfa', 'nfa'):
+        return lang_of(A, n)
+    if kind == 'pda':
+        return {w for w in gen.all_words(A.Sigma, n) if oracles.pda_accepts(A, w)}
+    if kind == 'tm':
+        return {w for w in gen.all_words(A.Sigma, n) if oracles.tm_run(A, w, 1000)[0] is True}
+    if kind == 'cfg':
+        s = enc.cfg_to_spec(A)
+        rules = [(l, [(a, b) for a, b in r]) for l, _, r in s['R']]
+        return {w for w in gen.all_words(sorted(s['Sigma']), n) if oracles.cfg_accepts(rules, s['S'], w)}
+    try:
+        spec = enc.regexp_to_spec(A)
+    except Exception:
+        return None
+    if any(len(x) != 1 for x in oracles.rx_symbols(spec)):
+        return None
+    return {w for w in gen.all_words(sorted(oracles.rx_symbols(spec)), n) if oracles.rx_matches(spec, w)}
+
+
+def kind_mutants(kind, rng, X):
+    """single-edit variants of a spec of the given kind, as texts"""
+    out = []
+    for _ in range(3):
+        m = copy.deepcopy(X)
+        try:
+            if kind == 'dfa':
+                out.append(DA.print_dfa(enc.build_dfa(mutate_dfa_spec(rng, X), check=False)))
+                continue
+            if kind == 'regexp':
+                out.append(print_regexp_simple(enc.build_regexp(gen.random_regexp(rng, rng.randint(1, 5), sorted(oracles.rx_symbols(X)) or ['a']))))
+                continue
+            if kind == 'cfg':
+                lines = simple_cfg_text(X).split('\n')
+                if len(lines) > 1:
+                    out.append('\n'.join(lines[:-1]))
+                continue
+            if m['delta'] and rng.random() < 0.6:
+                m['delta'].pop(rng.randrange(len(m['delta'])))
+            elif kind == 'tm':
+                if m['delta']:
+                    e = rng.choice(m['delta'])
+                    e[2] = rng.choice([m['qa'], m['qr']])
+            else:
+                m['F'] = [q for q in m['Q'] if rng.random() < 0.5]
+            out.append(KIND_TEXT[kind](m))
+        except Exception:
+            pass
+    return out
+
+
+class LanguageWordsAny:
+    """`check_<kind>_language_from_words` for pda / tm / regexp (dfa, nfa, cfg have their own classes above)"""
+    def __init__(self, kind):
+        self.kind = kind
+        self.name = kind + '_for_language'
+        self.regexp_answer = kind == 'regexp'
+
+    def instance(self, rng):
+        X = kind_instance(self.kind, rng)
+        if X is None:
+            return None
+        nQ = len(X['Q']) if isinstance(X, dict) and 'Q' in X else 0
+        return {'X': X, 'len': rng.choice([2, 3]), 'max': rng.choice([0, 0, nQ, nQ + 3]) if self.kind in ('pda', 'tm') else 0}
+
+    def own(self, inst, sc):
+        ext = {'pda': 'pda', 'tm': 'tm', 'regexp': 'regexp'}[self.kind]
+        inst['words'] = make_notebook.apply_command('generate', [sc.file(KIND_TEXT[self.kind](inst['X']), ext), str(inst['len'])])
+        return KIND_TEXT[self.kind](inst['X'])
+
+    def mutants(self, rng, inst, own):
+        return kind_mutants(self.kind, rng, inst['X'])
+
+    def check(self, inst, ans):
+        f = {'pda': NB.check_pda_language_from_words, 'tm': NB.check_tm_language_from_words, 'regexp': NB.check_regexp_language_from_words}[self.kind]
+        if self.kind == 'regexp':
+            return run_checker(f, ans, inst['words'], inst['len'])
+        return run_checker(f, ans, inst['words'], inst['len'], inst['max'])
+
+    def _ws(self, inst):
+        return set('' if w in ('ε', '_') else w for w in inst['words'].split())
+
+    def criterion(self, inst, ans):
+        L = kind_lang(self.kind, ans, inst['len'])
+        if L is None:
+            return False
+        if self.kind in ('pda', 'tm'):
+            A = try_parse(KIND_PARSE[self.kind], ans)
+            if 0 < inst['max'] < len(A.Q):
+                return False
+        return L == self._ws(inst)
+
+    def langs(self, inst, ans):
+        L = kind_lang(self.kind, ans, inst['len'])
+        return None if L is None else (L, self._ws(inst))
+
+    def lean(self, inst, ans):
+        return None
+
+    def text_lean(self, inst, ans):
+        return {'op': 'chk_text', 'name': 'lang_words', 'kind': self.kind, 'answer': ans, 'ref': '', 'words': inst['words'],
+                'len': inst['len'], 'max': inst.get('max', 0)}
+
+
+class LanguageFileAny:
+    in_c13 = False      # its `own` is an answer with the reference language only where the library can build one
+    """`check_<kind>_language_from_file` with a reference file of ANY kind (the extension selects the parser)"""
+    def __init__(self, kind, rkind):
+        self.kind, self.rkind = kind, rkind
+        self.name = '%s_language_from_%s_file' % (kind, rkind)
+        self.regexp_answer = kind == 'regexp'
+
+    def instance(self, rng):
+        R = kind_instance(self.rkind, rng)
+        if R is None:
+            return None
+        return {'R': R, 'len': rng.choice([2, 3]), 'seed': rng.randrange(1 << 30)}
+
+    def own(self, inst, sc):
+        """an answer of kind `kind` with the reference language, when the library can produce one; otherwise any text of that kind"""
+        import random
+        r = random.Random(inst['seed'])
+        if self.kind == self.rkind:
+            return KIND_TEXT[self.kind](inst['R'])
+        try:
+            if self.kind == 'dfa' and self.rkind == 'nfa':
+                return DA.print_dfa(rename_states(NA.nfa_to_dfa(enc.build_nfa(inst['R']))))
+            if self.kind == 'nfa' and self.rkind == 'regexp':
+                return NA.print_nfa(RA.regexp_to_nfa(enc.build_regexp(inst['R'])))
+            if self.kind == 'regexp' and self.rkind == 'dfa':
+                return print_regexp_simple(RA.dfa_to_regexp(enc.build_dfa(inst['R'])))
+            if self.kind == 'nfa' and self.rkind == 'dfa':
+                D = inst['R']
+                return nfa_text(dict(D, delta=[[q, a, [t]] for q, a, t in D['delta']], eps='_', dd=True))
+        except Exception:
+            pass
+        X = kind_instance(self.kind, r)
+        return KIND_TEXT[self.kind](X) if X is not None else ''
+
+    def mutants(self, rng, inst, own):
+        out = []
+        for _ in range(3):
+            X = kind_instance(self.kind, rng)
+            if X is not None:
+                try:
+                    out.append(KIND_TEXT[self.kind](X))
+                except Exception:
+                    pass
+        lines = own.split('\n')
+        if len(lines) > 2:
+            out.append('\n'.join(lines[:-1]))
+        return out
+
+    def check(self, inst, ans):
+        f = {'dfa': NB.check_dfa_language_from_file, 'nfa': NB.check_nfa_language_from_file, 'pda': NB.check_pda_language_from_file,
+             'tm': NB.check_tm_language_from_file, 'cfg': NB.check_cfg_language_from_file, 'regexp': NB.check_regexp_language_from_file}[self.kind]
+        sc = Scratch()
+        try:
+            path = sc.file(KIND_TEXT[self.rkind](inst['R']), self.rkind)
+            return run_checker(f, ans, path, inst['len'])
+        finally:
+            sc.close()
+
+    def _ref(self, inst):
+        return kind_lang(self.rkind, KIND_TEXT[self.rkind](inst['R']), inst['len'])
+
+    def criterion(self, inst, ans):
+        L, R = kind_lang(self.kind, ans, inst['len']), self._ref(inst)
+        return L is not None and R is not None and L == R
+
+    def langs(self, inst, ans):
+        L, R = kind_lang(self.kind, ans, inst['len']), self._ref(inst)
+        return None if L is None or R is None else (L, R)
+
+    def lean(self, inst, ans):
+        return None
+
+    def text_lean(self, inst, ans):
+        return {'op': 'chk_text', 'name': 'lang_file', 'kind': self.kind, 'rkind': self.rkind, 'answer': ans,
+                'ref': KIND_TEXT[self.rkind](inst['R']), 'len': inst['len']}
+
+
+def rename_states(D):
+    """subset names {q0,q1} are not \\w+ words: rename to s0, s1, ... so that the default parser reads the text"""
+    from gambatools.dfa import DFA
+    m = {q: 's%d' % i for i, q in enumerate(sorted(D.Q))}
+    return DFA({m[q] for q in D.Q}, set(D.Sigma), {(m[p], a): m[t] for (p, a), t in D.delta.items()}, m[D.q0], {m[q] for q in D.F})
+
+
+class NumberOfNfaStates:
+    name = 'number_of_nfa_states'
+    in_c13 = False
+
+    def instance(self, rng):
+        X = gen.random_nfa(rng, 4, rng.choice([['a', 'b'], ['a']]), rng.choice(['_', 'ε']))
+        X['dd'] = True
+        return {'X': X, 'count': len(X['Q']) + rng.choice([0, 0, 0, 1, -1])}
+
+    def own(self, inst, sc):
+        return nfa_text(inst['X'])
+
+    def mutants(self, rng, inst, own):
+        out = []
+        for _ in range(3):
+            Y = gen.random_nfa(rng, 5, inst['X']['Sigma'], inst['X']['eps'])
+            Y['dd'] = True
+            out.append(nfa_text(Y))
+        return out
+
+    def check(self, inst, ans):
+        return run_checker(NB.check_number_of_nfa_states, ans, inst['count'])
+
+    def criterion(self, inst, ans):
+        A = try_parse(NA.parse_nfa, ans)
+        return A is not None and len(A.Q) == inst['count']
+
+    def lean(self, inst, ans):
+        return None
+
+    def text_lean(self, inst, ans):
+        return {'op': 'chk_text', 'name': 'nfa_states', 'answer': ans, 'ref': '', 'count': max(inst['count'], 0)}
+
+
+class CfgAcceptsExperimental:
+    in_c13 = False
+    """notebook_experimental.check_cfg_accepts / check_cfg_rejects: OK iff every (no) listed word is generated"""
+    def __init__(self, rejects):
+        self.rejects = rejects
+        self.name = 'cfg_rejects' if rejects else 'cfg_accepts'
+        self.may_raise = rejects          # check_cfg_rejects has no try/except
+
+    def instance(self, rng):
+        c = CfgLanguageWords().instance(rng)
+        if c is None:
+            return None
+        X = c['G']
+        rules = [(l, [(a, b) for a, b in r]) for l, _, r in X['R']]
+        allw = gen.all_words(X['Sigma'], 3)
+        L = {w for w in allw if oracles.cfg_accepts(rules, X['S'], w)}
+        pool = sorted(L) if not self.rejects else sorted(set(allw) - L)
+        other = sorted(set(allw) - set(pool))
+        ws = rng.sample(pool, min(len(pool), rng.randint(0, 4)))
+        if other and rng.random() < 0.3:
+            ws.append(rng.choice(other))
+        return {'X': X, 'words': ' '.join(rng.choice(['ε', '_']) if w == '' else w for w in ws)}
+
+    def own(self, inst, sc):
+        return simple_cfg_text(inst['X'])
+
+    def mutants(self, rng, inst, own):
+        out = []
+        lines = own.split('\n')
+        if len(lines) > 1:
+            out.append('\n'.join(lines[:-1]))
+        for _ in range(2):
+            G2 = gen.random_cfg(rng, nvars=rng.randint(1, 3), maxlen=3)
+            if all(len(v) == 1 and v.isupper() for v in G2['V']) and G2['R'] and G2['R'][0][0] == G2['S']:
+                out.append(simple_cfg_text(G2))
+        return out
+
+    def check(self, inst, ans):
+        from gambatools import notebook_experimental as NX
+        return run_checker(NX.check_cfg_rejects if self.rejects else NX.check_cfg_accepts, ans, inst['words'])
+
+    def criterion(self, inst, ans):
+        A = try_parse(CA.parse_simple_cfg, ans)
+        if A is None:
+            return False
+        s = enc.cfg_to_spec(A)
+        rules = [(l, [(a, b) for a, b in r]) for l, _, r in s['R']]
+        ws = ['' if w in ('ε', '_') else w for w in inst['words'].split()]
+        return all(oracles.cfg_accepts(rules, s['S'], w) != self.rejects for w in ws)
+
+    def lean(self, inst, ans):
+        return None
+
+    def text_lean(self, inst, ans):
+        return {'op': 'chk_text', 'name': self.name, 'answer': ans, 'ref': '', 'words': inst['words']}
+
+
+ALL += [LanguageWordsAny('pda'), LanguageWordsAny('tm'), LanguageWordsAny('regexp'),
+        LanguageFileAny('dfa', 'nfa'), LanguageFileAny('nfa', 'regexp'), LanguageFileAny('regexp', 'dfa'), LanguageFileAny('nfa', 'dfa'),
+        LanguageFileAny('pda', 'pda'), LanguageFileAny('tm', 'tm'), LanguageFileAny('cfg', 'cfg'), LanguageFileAny('regexp', 'regexp'),
+        LanguageFileAny('pda', 'cfg'), LanguageFileAny('dfa', 'regexp'), LanguageFileAny('cfg', 'regexp'),
+        NumberOfNfaStates(), CfgAcceptsExperimental(False), CfgAcceptsExperimental(True)]
